@@ -110,46 +110,6 @@ def parseVal (s : String) : Option Val :=
   | "f" => body.toNat?.map (fun n => Val.flt (Float.ofBits (UInt64.ofNat n)))
   | _ => none
 
-def isFlt : Val → Bool
-  | .flt _ => true
-  | _ => false
-
-def toI : Val → Int
-  | .int i => i
-  | .bool b => if b then 1 else 0
-  | .flt _ => 0
-
-def toF : Val → Float
-  | .int i => Float.ofInt i
-  | .bool b => if b then 1.0 else 0.0
-  | .flt x => x
-
-def truthy : Val → Bool
-  | .int i => i != 0
-  | .bool b => b
-  | .flt x => x != 0.0
-
-def arith (fi : Int → Int → Int) (ff : Float → Float → Float) (a b : Val) : Val :=
-  if isFlt a || isFlt b then .flt (ff (toF a) (toF b)) else .int (fi (toI a) (toI b))
-
-def vlt (a b : Val) : Bool := if isFlt a || isFlt b then toF a < toF b else toI a < toI b
-
-/-- the Python functions the harness registers, by id -/
-def applyOp (op : String) (args : List Val) : Option Val :=
-  match op, args with
-  | "add", [a, b] => some (arith (· + ·) (· + ·) a b)
-  | "sub", [a, b] => some (arith (· - ·) (· - ·) a b)
-  | "mul", [a, b] => some (arith (· * ·) (· * ·) a b)
-  | "neg", [a] => some (match a with | .flt x => .flt (-x) | v => .int (-(toI v)))
-  | "max2", [a, b] => some (if vlt a b then b else a)
-  | "max3", [a, b, c] => some (let r := if vlt a b then b else a; if vlt r c then c else r)
-  | "ite", [c, a, b] => some (if truthy c then a else b)
-  | "lt", [a, b] => some (.bool (vlt a b))
-  | "and", [a, b] => some (if truthy a then b else a)
-  | "not", [a] => some (.bool (!truthy a))
-  | "id", [a] => some a
-  | _, _ => none
-
 /-! ### parsing of the request pieces -/
 
 def parseAssoc {β : Type} (pv : String → Option β) (s : String) : Option (List (Str × β)) :=
@@ -259,6 +219,24 @@ def handle : List String → String
       match compileADF pts with
       | some f => ",".intercalate (tu.map (fun vals => showRes (f vals)))
       | none => "none"
+    | none => "bad-op"
+  | "adfs" :: tuples :: rest =>
+    -- a session: the first half of the groups is individual A, the second half individual B (same sets);
+    -- answers fA's values (called AFTER B was compiled) and fB's values
+    match (do let tu ← parseTuples tuples; let pts ← parseCPsets rest; pure (tu, pts)) with
+    | some (tu, pts) =>
+      let n := pts.length / 2
+      let a := pts.take n
+      let b := pts.drop n
+      if pts.length ≠ 2 * n then "bad-op" else
+      let sigs := a.map (fun x => (⟨x.1.name, x.1.arguments⟩ : PSig))
+      let cs := a.map (fun x => x.1.env)
+      let sA := sessGo (mkItems sigs cs (a.map (·.2)))
+      let sB := sessGo (mkItems sigs sA.2.1 (b.map (·.2)))
+      match sA.2.2, sB.2.2 with
+      | some fa, some fb =>
+        ",".intercalate (tu.map (fun vals => showRes (fa vals))) ++ "|" ++ ",".intercalate (tu.map (fun vals => showRes (fb vals)))
+      | _, _ => "none"
     | none => "bad-op"
   | _ => "bad-op"
 
